@@ -12,15 +12,16 @@ rsync -a --exclude .git /repo/ "$scratch/repo/"
 cleanup() { rm -rf "$scratch" "$VHOME"/.build/$(echo -n "$scratch/repo" | sha256sum | cut -c1-12); }
 trap cleanup EXIT
 cd "$scratch/repo"
-if ! patch -p1 --quiet < "$seed/patch.diff"; then echo "SEED-PATCH-FAILED"; exit 3; fi
+pf="$seed/patch.diff"; [ -f "$seed/patch.rebased.diff" ] && pf="$seed/patch.rebased.diff"
+if ! patch -p1 --quiet < "$pf"; then echo "SEED-PATCH-FAILED"; exit 3; fi
 if go1.26 test -vet=off -count=1 ./... > "$scratch/suite.log" 2>&1; then echo "1. suite with change: PASS"; else echo "1. suite with change: FAIL"; tail -5 "$scratch/suite.log"; fi
 demo=$(ls "$seed"/*_test.go | head -1)
 cp "$demo" "$pkg/"
 if go1.26 test -vet=off -count=1 "./$pkg/" > "$scratch/demo1.log" 2>&1; then echo "2. demo with change: PASS (unexpected)"; else echo "2. demo with change: FAIL (expected)"; fi
-patch -R -p1 --quiet < "$seed/patch.diff"
+patch -R -p1 --quiet < "$pf"
 if go1.26 test -vet=off -count=1 "./$pkg/" > "$scratch/demo2.log" 2>&1; then echo "3. demo without change: PASS (expected)"; else echo "3. demo without change: FAIL (unexpected)"; tail -5 "$scratch/demo2.log"; fi
 rm -f "$pkg/$(basename "$demo")"
-patch -p1 --quiet < "$seed/patch.diff"
+patch -p1 --quiet < "$pf"
 cp "$VHOME"/known_findings.json "$scratch/vroot/"
 cd "$VHOME"
 for id in "${ids[@]}"; do
